@@ -298,6 +298,10 @@ def accessors_swapper(chk):
             else:
                 steps.append(('restore',))
                 saved = False
+        if it % 3 == 0:
+            # a save taken in a layout that is not the one the grid was built in, a move away, and the restore
+            others = [n for n in names if n != mine]
+            steps = [('own', others[it % len(others)]), ('save',), ('own', rng.choice(names)), ('restore',)] + [s_ for s_ in steps if s_[0] in ('other', 'own')]
         G = lu.global_array(ext, 'complex128')
         nprocs_of = [[p0, p1], [p0], [p1]]
 
@@ -388,17 +392,39 @@ def accessors_swapper(chk):
 
 
 def exact_buffers(chk):
-    """arrays of exactly bufferSize (inside a larger backing array with sentinels) suffice for every transpose"""
-    from pygyro.model.layout import getLayoutHandler
+    """arrays of exactly bufferSize suffice for every transpose: EVERY ordered pair of layouts of a handler (the declaration order of
+    the layouts shuffled: the size needed by a pair may not depend on which pairs were looked at before), and the layout changes of a
+    LayoutSwapper between its groups (groups declared in any order, uneven splits)"""
+    from pygyro.model.layout import getLayoutHandler, LayoutSwapper
+    from props import c03
     rng = chk.rng
+    drv01 = common.LeanDriver('C01.lean')        # the handler model (Model/Handler.lean): its bufferSize is the size the theorems of C01/C02Extra are about
     for it in range(chk.n(40, 400)):
         nd = rng.randint(2, 4)
         nprocs = lu.rand_nprocs(rng, nd, max_ranks=6)
         shape = lu.rand_shape(rng, nd, nprocs, hi=7)
-        lays = lu.rand_layout_set(rng, nd, nprocs)
-        names = sorted(lays)
-        src, dst = rng.choice(names), rng.choice(names)
-        usebuf = rng.random() < 0.5
+        lays = lu.rand_layout_set(rng, nd, nprocs, k=(rng.randint(3, 5) if (it % 2 and nd >= 3) else None))
+        if it % 4 == 3:
+            # one distributed direction: every layout is directly connected with every layout that distributes another dimension, so a
+            # layout declared late has SEVERAL partners among the earlier ones; extents that do not divide
+            nd = 3
+            pp = rng.choice([2, 3, 4])
+            nprocs = [pp]
+            shape = [rng.choice([pp + 1, pp + 2, 2 * pp + 1, 7]) for _ in range(nd)]
+            firsts = list(range(nd))
+            rng.shuffle(firsts)
+            lays = {}
+            for k, f0_ in enumerate(firsts):
+                rest = [d for d in range(nd) if d != f0_]
+                rng.shuffle(rest)
+                lays['L%d' % k] = [f0_] + rest
+        items = list(lays.items())
+        rng.shuffle(items)
+        lays = dict(items)
+        names = list(lays)
+        pairs = [(a, b, rng.random() < 0.5) for a in names for b in names if a != b]
+        rng.shuffle(pairs)
+        pairs = pairs[:12]
         eta = lu.eta_grids(shape)
         G = lu.global_array(shape, 'float64')
 
@@ -409,26 +435,140 @@ def exact_buffers(chk):
             # own-data arrays of exactly B elements (the code asserts `view.base is buffer`, so the buffers
             # cannot themselves be views into a larger sentinel array; numpy's own bounds checks make any
             # access beyond B raise instead of corrupting memory)
-            a, b, c = [np.full(B, -7.0 - k) for k in range(3)]
-            ls, ld = h.getLayout(src), h.getLayout(dst)
-            lu.put_block(a, G, ls)
-            h.transpose(a, b, src, dst, c if usebuf else None)
-            ok_data = np.array_equal(lu.block_of(b, ld), lu.expected_block(G, ld))
-            ok_sent = (not usebuf) or np.array_equal(lu.block_of(a, ls), lu.expected_block(G, ls))
+            out = []
+            for src, dst, usebuf in pairs:
+                a, b, c = [np.full(B, -7.0 - k) for k in range(3)]
+                ls, ld = h.getLayout(src), h.getLayout(dst)
+                lu.put_block(a, G, ls)
+                h.transpose(a, b, src, dst, c if usebuf else None)
+                ok_data = bool(np.array_equal(lu.block_of(b, ld), lu.expected_block(G, ld)))
+                ok_sent = (not usebuf) or bool(np.array_equal(lu.block_of(a, ls), lu.expected_block(G, ls)))
+                out.append((src, dst, usebuf, ok_data, ok_sent))
             fits = all(h.getLayout(n).size <= B for n in names)
-            return ok_data, ok_sent, fits, B
+            return out, fits, B
         res = lu.run_ranks(int(np.prod(nprocs)), body)
-        case = {'nprocs': nprocs, 'ext': shape, 'layouts': lays, 'src': src, 'dst': dst, 'buf': usebuf}
+        case = {'nprocs': nprocs, 'ext': shape, 'layouts': lays}
         if not res.ok:
             sig = 'C02:exact-buffer-raise'
-            chk.fail(sig, 'transpose with buffers of exactly bufferSize raised: ' + str(res.first_error())[:160], case)
+            chk.fail(sig, 'transpose with buffers of exactly bufferSize raised: ' + str(res.first_error())[:160], dict(case, pairs=pairs))
         else:
-            for od, osent, fits, B in res.values():
-                if not (od and osent and fits):
-                    chk.fail('C02:exact-buffer', 'buffers of exactly the advertised size do not suffice (data %s, source intact %s, fits %s)' % (od, osent, fits), case)
+            for out, fits, B in res.values():
+                badp = [o for o in out if not (o[3] and o[4])]
+                if badp or not fits:
+                    chk.fail('C02:exact-buffer', 'buffers of exactly the advertised size (%d) do not suffice (%s)' % (
+                        B, 'some layout does not fit' if not fits else 'transpose %s -> %s%s: data %s, source intact %s' % (
+                            badp[0][0], badp[0][1], ' with buffer' if badp[0][2] else '', badp[0][3], badp[0][4])),
+                        dict(case, src=badp[0][0] if badp else None, dst=badp[0][1] if badp else None, buf=badp[0][2] if badp else None))
                     break
-        chk.case(('buf', tuple(nprocs), tuple(shape), src != dst, usebuf), nontrivial=src != dst and max(nprocs) > 1)
-        chk.count('exact-buffer transposes')
+        if res.ok:
+            mh = drv01.call({'op': 'handler', 'nprocs': list(nprocs), 'ext': list(shape), 'names': names, 'orders': [lays[n] for n in names],
+                             'tie': list(range(len(names)))})
+            if mh.get('connected', True) and 'buffer' in mh and [v[2] for v in res.values()] != mh['buffer']:
+                chk.diff('advertised bufferSize (per rank)', case, mh['buffer'], [v[2] for v in res.values()])
+        chk.case(('buf', tuple(nprocs), tuple(shape), tuple(names)), nontrivial=len(names) > 1 and max(nprocs) > 1)
+        chk.count('exact-buffer transposes', len(pairs))
+    drv01.close()
+    # --- swapper: groups in any declaration order
+    for it in range(chk.n(60, 400)):
+        p0, p1 = rng.choice([(2, 3), (3, 2), (2, 2), (3, 1), (1, 3), (2, 1), (4, 1)])
+        fam = it % 5 if it % 5 < 2 else 2
+        if fam == 0:
+            groups, nprocs = [dict(g) for g in c03.DRIVER_GROUPS], [[p0, p1], [p0], [p1]]
+        elif fam == 1:
+            groups, nprocs = [dict(g) for g in c03.TEST_GROUPS], [[p0, p1], [p1], [p0]]
+        else:
+            nd_ = 3
+            groups = [{'A': list(rng.choice(lu.all_perms(nd_)))}, {'B': list(rng.choice(lu.all_perms(nd_)))}]
+            nprocs = [[p0, p1], [rng.choice([p0, p1])]]
+        order = list(range(len(groups)))
+        rng.shuffle(order)
+        groups, nprocs = [groups[k] for k in order], [nprocs[k] for k in order]
+        nd_ = len(next(iter(groups[0].values())))
+        shape = [rng.choice([max(p0, p1), max(p0, p1) + 1, max(p0, p1) + 2, 5, 7]) for _ in range(nd_)]
+        names = [n for g in groups for n in g]
+        eta = lu.eta_grids(shape)
+        G = lu.global_array(shape, 'float64')
+        walk = [rng.choice(names) for _ in range(6)]
+        ubs = [rng.random() < 0.5 for _ in walk]
+        start = rng.choice(names)
+
+        def body():
+            comm = MPI.COMM_WORLD
+            try:
+                sw = LayoutSwapper(comm, groups, [n if len(n) > 1 else n[0] for n in nprocs], eta, start)
+            except (RuntimeError, AssertionError, IndexError, ValueError) as e:
+                return ('refused', type(e).__name__)
+            B = int(sw.bufferSize)
+            bufs = [np.full(B, -1.0), np.full(B, -2.0), np.full(B, -3.0)]
+            cur = start
+            lu.put_block(bufs[0], G, sw.getLayout(cur))
+            d, o = 0, 1
+            for dst, ub in zip(walk, ubs):
+                sw.transpose(bufs[d], bufs[o], cur, dst, bufs[2] if ub else None)
+                ld = sw.getLayout(dst)
+                if not np.array_equal(lu.block_of(bufs[o], ld), lu.expected_block(G, ld)):
+                    return ('bad', cur, dst, ub, B)
+                d, o, cur = o, d, dst
+            return ('ok', B)
+        res = lu.run_ranks(p0 * p1, body)
+        case = {'groups': groups, 'nprocs': nprocs, 'ext': shape, 'start': start, 'walk': list(zip(walk, ubs))}
+        if not res.ok:
+            chk.fail('C02:exact-buffer-raise', 'LayoutSwapper.transpose with buffers of exactly bufferSize raised: ' + str(res.first_error())[:160], case)
+        else:
+            vals = res.values()
+            if any(v[0] == 'bad' for v in vals):
+                v = [v for v in vals if v[0] == 'bad'][0]
+                chk.fail('C02:exact-buffer', 'LayoutSwapper: buffers of exactly the advertised size (%d) do not suffice for %s -> %s%s' % (
+                    v[4], v[1], v[2], ' with buffer' if v[3] else ''), case)
+            elif len({v[0] for v in vals}) > 1:
+                chk.fail('C02:exact-buffer-raise', 'the swapper constructor is refused on some ranks only: %s' % sorted({str(v) for v in vals})[:3], case)
+        chk.case(('swbuf', it, p0, p1, tuple(shape)), nontrivial=p0 * p1 > 1)
+        chk.count('exact-buffer swapper walks')
+    # --- swapper, systematically: a 1-D group declared BEFORE the 2-D group, every pair of orderings, the 1-D group on either process
+    #     axis, extents that do not divide; direct gather and scatter with buffers of exactly the advertised size
+    combos = [(og, os_, ax) for og in lu.all_perms(3) for os_ in lu.all_perms(3) for ax in (0, 1)]
+    rng.shuffle(combos)
+    for og, os_, ax in combos[:chk.n(20, 72)]:
+        q_, r_ = rng.choice([(3, 2), (2, 3)])
+        groups = [{'G': list(og)}, {'S': list(os_)}]
+        nprocs = [[(q_, r_)[ax]], [q_, r_]]
+        shape = [rng.choice([4, 5, 7]) for _ in range(3)]
+        eta = lu.eta_grids(shape)
+        G = lu.global_array(shape, 'float64')
+        ubs = [rng.random() < 0.5 for _ in range(3)]
+
+        def body():
+            comm = MPI.COMM_WORLD
+            try:
+                sw = LayoutSwapper(comm, groups, [nprocs[0][0], nprocs[1]], eta, 'G')
+            except (RuntimeError, AssertionError, IndexError, ValueError) as e:
+                return ('refused', type(e).__name__)
+            B = int(sw.bufferSize)
+            bufs = [np.full(B, -1.0), np.full(B, -2.0), np.full(B, -3.0)]
+            cur = 'G'
+            lu.put_block(bufs[0], G, sw.getLayout(cur))
+            d, o = 0, 1
+            for dst, ub in zip(['S', 'G', 'S'], ubs):
+                sw.transpose(bufs[d], bufs[o], cur, dst, bufs[2] if ub else None)
+                ld = sw.getLayout(dst)
+                if not np.array_equal(lu.block_of(bufs[o], ld), lu.expected_block(G, ld)):
+                    return ('bad', cur, dst, ub, B)
+                d, o, cur = o, d, dst
+            return ('ok', B)
+        res = lu.run_ranks(q_ * r_, body)
+        case = {'groups': groups, 'nprocs': nprocs, 'ext': shape, 'start': 'G', 'walk': list(zip(['S', 'G', 'S'], ubs))}
+        if not res.ok:
+            chk.fail('C02:exact-buffer-raise', 'LayoutSwapper (1-D group declared first) with buffers of exactly bufferSize raised: ' + str(res.first_error())[:160], case)
+        else:
+            vals = res.values()
+            if any(v[0] == 'bad' for v in vals):
+                v = [v for v in vals if v[0] == 'bad'][0]
+                chk.fail('C02:exact-buffer', 'LayoutSwapper (1-D group declared first): buffers of exactly the advertised size (%d) do not suffice for %s -> %s%s' % (
+                    v[4], v[1], v[2], ' with buffer' if v[3] else ''), case)
+            elif len({v[0] for v in vals}) > 1:
+                chk.fail('C02:exact-buffer-raise', 'the swapper constructor is refused on some ranks only: %s' % sorted({str(v) for v in vals})[:3], case)
+        chk.case(('swbuf1d', tuple(og), tuple(os_), ax, tuple(shape)), nontrivial=True)
+        chk.count('exact-buffer swapper, 1-D group first')
 
 
 def run(chk):
